@@ -15,6 +15,7 @@ def safe_decode_script(s, lv, t, path="."):
             ops.append("getf %s %d %s" % (path, k, r[1]))
         elif r[0] == "A":
             ops.append("geta %s %d" % (path, k))
+            ops.append("getar %s %d" % (path, k))
         else:
             for j, (mn, mr) in enumerate(msgdrv.comp_members_nonconst(s, f.type_name)):
                 if mr[0] == "S":
